@@ -162,9 +162,21 @@ func checkRaw(v *harness.Verdict, ep string, in []byte, base int, c *x509.Certif
 func runAll(v *harness.Verdict, in []byte, pemIn []byte) map[string]string {
 	res := map[string]string{}
 	cp := func() []byte { return append([]byte(nil), in...) } // every parser gets its own copy: aliasing is judged per call
+	// a parser must leave its input alone (the raw fields alias it): each buffer is compared with the
+	// pristine input after the call
+	intact := func(ep string, b, pristine []byte) {
+		if !bytes.Equal(b, pristine) {
+			at := 0
+			for at < len(b) && at < len(pristine) && b[at] == pristine[at] {
+				at++
+			}
+			v.Failf("input-modified:"+ep, "%s modified its input buffer (first difference at offset %d of %d)", ep, at, len(pristine))
+		}
+	}
 	{
 		b := cp()
 		c, err := x509.ParseCertificate(b)
+		intact("ParseCertificate", b, in)
 		res["ParseCertificate"] = contract(v, "ParseCertificate", c, err)
 		if err != nil && c == nil {
 			if m := normErr(err); strings.HasPrefix(m, "x###:") {
@@ -178,6 +190,7 @@ func runAll(v *harness.Verdict, in []byte, pemIn []byte) map[string]string {
 	{
 		b := cp()
 		c, err := x509.ParseTBSCertificate(b)
+		intact("ParseTBSCertificate", b, in)
 		res["ParseTBSCertificate"] = contract(v, "ParseTBSCertificate", c, err)
 		if c != nil {
 			checkRaw(v, "ParseTBSCertificate", b, 0, c, true)
@@ -186,6 +199,7 @@ func runAll(v *harness.Verdict, in []byte, pemIn []byte) map[string]string {
 	{
 		b := cp()
 		cs, err := x509.ParseCertificates(b)
+		intact("ParseCertificates", b, in)
 		res["ParseCertificates"] = contract(v, "ParseCertificates", cs, err)
 		off := 0
 		for i, c := range cs {
@@ -205,39 +219,57 @@ func runAll(v *harness.Verdict, in []byte, pemIn []byte) map[string]string {
 		lists = pemIn
 	}
 	{
-		l, err := x509.ParseCertificateList(append([]byte(nil), lists...))
+		b := append([]byte(nil), lists...)
+		l, err := x509.ParseCertificateList(b)
+		intact("ParseCertificateList", b, lists)
 		res["ParseCertificateList"] = contract(v, "ParseCertificateList", l, err)
 	}
 	{
-		l, err := x509.ParseCertificateListDER(cp())
+		b := cp()
+		l, err := x509.ParseCertificateListDER(b)
+		intact("ParseCertificateListDER", b, in)
 		res["ParseCertificateListDER"] = contract(v, "ParseCertificateListDER", l, err)
 	}
 	{
-		l, err := x509.ParseCRL(append([]byte(nil), lists...))
+		b := append([]byte(nil), lists...)
+		l, err := x509.ParseCRL(b)
+		intact("ParseCRL", b, lists)
 		res["ParseCRL"] = contract(v, "ParseCRL", l, err)
 	}
 	{
-		l, err := x509.ParseDERCRL(cp())
+		b := cp()
+		l, err := x509.ParseDERCRL(b)
+		intact("ParseDERCRL", b, in)
 		res["ParseDERCRL"] = contract(v, "ParseDERCRL", l, err)
 	}
 	{
-		k, err := x509.ParsePKIXPublicKey(cp())
+		b := cp()
+		k, err := x509.ParsePKIXPublicKey(b)
+		intact("ParsePKIXPublicKey", b, in)
 		res["ParsePKIXPublicKey"] = contract(v, "ParsePKIXPublicKey", k, err)
 	}
 	{
-		k, err := x509.ParsePKCS1PrivateKey(cp())
+		b := cp()
+		k, err := x509.ParsePKCS1PrivateKey(b)
+		intact("ParsePKCS1PrivateKey", b, in)
 		res["ParsePKCS1PrivateKey"] = contract(v, "ParsePKCS1PrivateKey", k, err)
 	}
 	{
-		k, err := x509.ParsePKCS8PrivateKey(cp())
+		b := cp()
+		k, err := x509.ParsePKCS8PrivateKey(b)
+		intact("ParsePKCS8PrivateKey", b, in)
 		res["ParsePKCS8PrivateKey"] = contract(v, "ParsePKCS8PrivateKey", k, err)
 	}
 	{
-		k, err := x509.ParseECPrivateKey(cp())
+		b := cp()
+		k, err := x509.ParseECPrivateKey(b)
+		intact("ParseECPrivateKey", b, in)
 		res["ParseECPrivateKey"] = contract(v, "ParseECPrivateKey", k, err)
 	}
 	{
-		r, err := x509.ParseCertificateRequest(cp())
+		b := cp()
+		r, err := x509.ParseCertificateRequest(b)
+		intact("ParseCertificateRequest", b, in)
 		res["ParseCertificateRequest"] = contract(v, "ParseCertificateRequest", r, err)
 	}
 	return res
